@@ -230,6 +230,29 @@ class SpecMixin:
         x = self.ev(node.args[0], st, ctx)
         return mk_bool(z3.And(0 <= x.t, x.t < st.alloc))
 
+    def spec_old_objects_unchanged(self, node, st, ctx):
+        """old_objects_unchanged('L.<tag>'): no list (length or elements) of that element tag that existed at function entry
+        has been written - a frame invariant for loops that create and fill their own temporary lists"""
+        base = node.args[0].value
+        if ctx.old is None:
+            raise StaleContract("old_objects_unchanged() needs an old state")
+        r = z3.Int(fresh_name("r"))
+        out = []
+        for suffix in (".len", ".elem"):
+            name = base + suffix
+            cur = st.heap.get(name)
+            if cur is None:
+                continue  # never written on this path
+            old = ctx.old.heap.get(name)
+            if old is None:
+                old = self.heap0(name, cur.sort())
+            body = z3.Implies(z3.And(0 <= r, r < ctx.old.alloc), cur[r] == old[r])
+            try:
+                out.append(z3.ForAll([r], body, patterns=[cur[r]] if z3.is_const(cur) else [old[r]]))
+            except z3.Z3Exception:
+                out.append(z3.ForAll([r], body))
+        return mk_bool(z3.And(*out) if out else z3.BoolVal(True))
+
     def spec_fresh(self, node, st, ctx):
         x = self.ev(node.args[0], st, ctx)
         if ctx.old is None:
@@ -557,7 +580,8 @@ class SpecMixin:
         if ctx.spec:
             raise StaleContract("program function %s called in a spec" % c.qualname)
         if ctx.binders:
-            if not c.pure:
+            # inside a comprehension: the callee may allocate its result (one fresh object per binding) but must not modify anything
+            if not c.pure and (c.modifies or (c.returns is not None and c.returns.is_ref and not c.fresh_result)):
                 raise Unsupported("call to impure function %s inside a comprehension" % c.qualname)
         params = self.bind_args(c, selfsv, node, st, ctx)
         self.called.add(c.qualname)
